@@ -1,15 +1,131 @@
-/- Bridge (C12): the decision structure of name resolution re-read from evaluation.py on every run
-   (Cel.Gen.Names) is what the hand-written model Cel.Model.Names mirrors. -/
-import Cel.Gen.Names
-import Cel.Model.Names
-namespace Cel.Bridge
-open Cel Cel.Names
+/- Bridge (C12): the name-resolution code re-read from evaluation.py on every run is what the hand-written
+   model Cel.Model.Names mirrors.
 
-/-- `Referent.value` prefers the container, then the value, then the annotation — as `Node.result` does -/
-theorem names_referent_value :
-    Gen.Names.referentValue true true = "container" ∧ Gen.Names.referentValue true false = "container" ∧
-    Gen.Names.referentValue false true = "value" ∧ Gen.Names.referentValue false false = "annotation" ∧
-    Gen.Names.valueSetterSetsFlag = true := by decide
+   * `Cel.Gen.NamesPy.prog` is the abstract syntax of Referent.__init__/value, NameContainer.find_name/
+     dict_find_name/resolve_name/get and Activation.resolve_variable/__getattr__ (a 1:1 dump).  The theorems
+     below RUN it (interpreter `Cel.NamesPy`, kernel evaluation) on a small scope chosen to separate every
+     branch — all 16 field combinations of a Referent; a container with map values, namespaces, null, a
+     bound-and-namespace name and a declaration × 16 paths; a container with the same names at the root and at
+     the package levels p, p.q, p.q.r × packages of depth 0..3 × names, with and without a macro-variable
+     scope in front, names on the package path — and state that it computes what `Node.result`, `findName`,
+     `resolveName`, `memberDot` compute.  (The same comparison runs on the large scope through the driver:
+     `srcinterp` lines of Cel.Drv.C12.)  The statement is about behaviour, not about the shape of the source:
+     a behaviour-preserving rewrite keeps it, a behaviour-changing one (inside the scope) breaks it.
+   * `Cel.Gen.Names` carries the remaining structural facts (load_values / load_annotations expansion loops,
+     parent_iter, nested_activation, sub-evaluator scope, macro_* helpers, member_dot, transpiled templates). -/
+import Cel.Gen.Names
+import Cel.Gen.NamesPy
+import Cel.Model.Names
+import Cel.Model.NamesPy
+namespace Cel.Bridge
+open Cel Cel.Names Cel.NamesPy
+
+namespace NamesScope
+
+def P : Prog := Gen.NamesPy.prog
+
+/-- the container for `find_name`: a map value (nested), a namespace, a null, a name that is bound AND a
+namespace, a declared-only name -/
+def ncF : NC :=
+  loadValues (loadAnnotations [] [(["d"], 0)])
+    [(["a"], .map [("b", .map [("c", .int 3)])]), (["n", "b"], .int 4), (["n", "c"], .null),
+     (["v"], .int 1), (["v", "w"], .int 2)]
+
+def scopePaths : List (List String) :=
+  [[], ["a"], ["a", "b"], ["a", "b", "c"], ["a", "b", "c", "d"], ["a", "x"], ["n"], ["n", "b"], ["n", "b", "c"],
+   ["n", "x"], ["n", "c"], ["n", "c", "x"], ["v"], ["v", "w"], ["d"], ["zz"]]
+
+/-- the container for `resolve_name`: `a` at the root, at `p` and (as a namespace) at `p.q`; `b` at the root and
+at `p.q.r`; `c` only at the intermediate level `p.q`; declared-only `d` at `p` -/
+def ncR : NC :=
+  loadValues (loadAnnotations [] [(["p", "d"], 2), (["a"], 0)])
+    [(["a"], .int 1), (["p", "a"], .int 6), (["p", "q", "a", "b"], .int 8), (["p", "q", "r", "b"], .int 9),
+     (["b"], .map [("k", .int 2)]), (["p", "q", "c"], .null)]
+
+/-- names on the package path: a scalar (TypeError, skipped), a map (navigated by `dict_find_name`) -/
+def ncP1 : NC := loadValues [] [(["p"], .int 10), (["a"], .int 1)]
+def ncP2 : NC := loadValues [] [(["p"], .map [("a", .int 11)]), (["a"], .int 1)]
+/-- a namespace at the package level, a value of the same head at the root -/
+def ncM : NC := loadValues [] [(["p", "a", "b"], .int 7), (["a"], .map [("b", .int 2)])]
+/-- the scope of a macro variable in front -/
+def macroScope : NC := setValue [] ["a"] (.int 99)
+
+def pNone : PV × List String := (.none, [])
+def pEmpty : PV × List String := (.str "", [])
+def pP : PV × List String := (.str "p", ["p"])
+def pPQ : PV × List String := (.str "p.q", ["p", "q"])
+def pPQR : PV × List String := (.str "p.q.r", ["p", "q", "r"])
+
+/-- (parent chain, package, name) triples -/
+def scopeResolve : List (List NC × (PV × List String) × String) :=
+  ([pNone, pP, pPQ, pPQR].flatMap fun pkg => ["a", "b", "c", "zz"].map fun n => ([ncR], pkg, n)) ++
+  [([ncR], pEmpty, "a"), ([ncR], pP, "d"), ([ncR], pPQR, "d"), ([ncR], pNone, "d"),
+   ([macroScope, ncR], pNone, "a"), ([macroScope, ncR], pPQ, "a"), ([macroScope, ncR], pPQR, "b"),
+   ([macroScope, ncR], pP, "zz"),
+   ([ncP1], pP, "a"), ([ncP2], pP, "a"), ([ncP2], pPQ, "a"), ([ncM], pP, "a"), ([ncM], pPQ, "a"), ([ncM], pNone, "a")]
+
+def scopeLookup : List (List NC × (PV × List String) × String) :=
+  [([ncR], pNone, "a"), ([ncR], pPQR, "a"), ([ncR], pPQR, "b"), ([ncR], pPQ, "c"), ([ncR], pP, "d"), ([ncR], pP, "zz"),
+   ([ncM], pP, "a"), ([macroScope, ncR], pP, "a")]
+
+/-- every combination annotation / value / nested container of one Referent -/
+def scopeNodes : List Node :=
+  [none, some 1].flatMap fun a => [none, some (.int 5), some .null, some (.map [("k", .int 6)])].flatMap fun v =>
+    [[], [("k", Node.mk none (some (.int 7)) [])]].map fun kids => Node.mk a v kids
+
+def expectFind : Except FErr Res → String
+  | .ok r => canonRes r
+  | .error .notFound => "raise NotFound"
+  | .error .typeErr => "raise TypeError"
+
+def expectResolve : Option Res → String
+  | some r => canonRes r
+  | none => "raise KeyError"
+
+/-- `Activation.__getattr__` on a Referent that has nothing at all reports corruption (never built by load_*) -/
+def expectGetattr : Option Res → String
+  | some .nothing => "raise RuntimeError"
+  | some r => canonRes r
+  | none => "raise KeyError"
+
+def activation (chain : List NC) (pkg : PV) : PV :=
+  .obj "Activation" [("identifiers", embedChain chain), ("package", pkg), ("functions", .nc [] .none)]
+
+def checkReferentValue : Bool :=
+  scopeNodes.all fun n => outcome (getAttr 400 P (embedNode n) "value") == canonRes n.result
+
+def checkFindName : Bool :=
+  scopePaths.all fun path =>
+    outcome (valueOf P (callQ P "NameContainer" "find_name" [embedChain [ncF], .list (path.map PV.str)]))
+      == expectFind (findName ncF path)
+
+def checkResolveName : Bool :=
+  scopeResolve.all fun (chain, pkg, name) =>
+    outcome (valueOf P (callQ P "NameContainer" "resolve_name" [embedChain chain, pkg.1, .str name]))
+      == expectResolve (resolveName chain pkg.2 name)
+
+def checkResolveVariable : Bool :=
+  scopeLookup.all fun (chain, pkg, name) =>
+    outcome (callQ P "Activation" "resolve_variable" [activation chain pkg.1, .str name])
+      == expectResolve (resolveName chain pkg.2 name)
+
+def checkGetattr : Bool :=
+  scopeLookup.all fun (chain, pkg, name) =>
+    outcome (callQ P "Activation" "__getattr__" [activation chain pkg.1, .str name])
+      == expectGetattr (resolveName chain pkg.2 name)
+
+def checkGet : Bool :=
+  ["a", "p", "zz"].all fun f =>
+    outcome (callQ P "NameContainer" "get" [embedChain [ncR], .str f])
+      == expectResolve (memberDot (.nc ncR) f)
+
+end NamesScope
+open NamesScope
+
+/-- `Referent.value` (as written in the source now) prefers the container, then the value, then the
+annotation — it computes `Node.result` on every combination of the three fields (null values included) -/
+theorem names_referent_value : checkReferentValue = true ∧ Gen.Names.valueSetterSetsFlag = true := by
+  decide +kernel
 
 /-- `Node.result` follows that order -/
 theorem names_node_result (a : Option Nat) (v : Option Val) (k : String × Node) (ks : NC) :
@@ -24,28 +140,26 @@ theorem names_loading :
     Gen.Names.load_values_expands_dotted_names = true ∧ Gen.Names.load_annotations_expands_dotted_names = true ∧
     Gen.Names.annotationsLoadedBeforeValues = true := by decide
 
-/-- the branch order of `find_name` (`findName`) and `dict_find_name` (`dictFind`) -/
-theorem names_find_name :
-    Gen.Names.findNameSteps =
-      ["empty-path", "split", "lookup-head", "end-of-path", "container", "mapping-value", "type-error"] ∧
-    Gen.Names.dictFindNavigatesKeys = true := by decide
+/-- `find_name` / `dict_find_name` as written in the source now compute `findName` / `dictFind`: the same
+result (through `Referent.value`), NotFound and TypeError in the same cases -/
+theorem names_find_name : checkFindName = true := by decide +kernel
 
-/-- `resolve_name` (`resolveName`): package path first, shortened from the end, over the parent chain
-(this container first), candidates that raise NotFound/TypeError are skipped, KeyError if nothing
-matched, the longest match returned -/
+/-- `resolve_name` as written in the source now computes `resolveName`: package path first, shortened from
+the end one name at a time down to the root, over the parent chain (this container first), candidates that
+raise NotFound/TypeError skipped, KeyError if nothing matched -/
 theorem names_resolve_name :
-    Gen.Names.resolve_packageFirst = true ∧ Gen.Names.resolve_shrinksFromTheEnd = true ∧
-    Gen.Names.resolve_walksParentChain = true ∧ Gen.Names.resolve_looksUpTargetPlusName = true ∧
-    Gen.Names.resolve_keyErrorWhenNoMatch = true ∧ Gen.Names.resolve_longestMatch = true ∧
-    Gen.Names.resolveSkips = ["NameContainer.NotFound", "TypeError"] ∧
-    Gen.Names.parentIterSelfFirst = true := by decide
+    checkResolveName = true ∧ Gen.Names.parentIterSelfFirst = true ∧ Gen.NamesPy.identPatIsIdent = true := by
+  decide +kernel
 
-/-- both runners read a name through `Referent.value` semantics and select fields of a NameContainer
-by key (`memberDot`) -/
+/-- both runners read a name through `Referent.value` semantics (`Activation.resolve_variable` for the
+interpreter, `Activation.__getattr__` = `get` for transpiled code) and select fields of a NameContainer by
+key (`NameContainer.get` = `memberDot`) -/
 theorem names_lookup_paths :
-    Gen.Names.resolveVariableUsesValue = true ∧ Gen.Names.getattrAgreesWithValue = true ∧
-    Gen.Names.memberDotOnNameContainer = true ∧ Gen.Names.nameContainerGetResolves = true ∧
-    Gen.Names.transpiledIdentIsActivationAttr = true ∧ Gen.Names.transpiledMemberDotIsGet = true := by decide
+    checkResolveVariable = true ∧ checkGetattr = true ∧ checkGet = true ∧
+    Gen.NamesPy.activationGetIsGetattr = true ∧
+    Gen.Names.memberDotOnNameContainer = true ∧
+    Gen.Names.transpiledIdentIsActivationAttr = true ∧ Gen.Names.transpiledMemberDotIsGet = true := by
+  decide +kernel
 
 /-- macro variables are bound in a nested activation in front of the chain, in both runners (`bindVar`);
 top-level bindings are loaded into a clone of the base container -/
